@@ -52,6 +52,46 @@ def templates(n, m='m2'):
     return out
 
 
+def macro_scoping_jobs():
+    """globals persist also after a macro; the macro's locals do not; the caller's locals are visible inside
+    (dynamic scope) -- decided metamorphically: template with METAL vs its hand-inlined equivalent (C09's harness)"""
+    import copy
+    from checks.C09 import I, P, el, use
+    from vlib import metal_inline as mi
+    out = []
+
+    def add(label, tree, vars_):
+        macros = mi.collect_macros(tree, {})
+        inlined = mi.inline(copy.deepcopy(tree), macros)
+        assert len(inlined) == 1
+        out.append({'label': 'macro:' + label, 'lib': None, 'caller': tree, 'inlined': inlined[0], 'vars': vars_})
+    hide = lambda *m: el('hide', *m, condition=py('False'))     # noqa: E731
+    bump = el('p', I('g'), define_macro='bump', define=[['global', 'g', py('g + 1')]])
+    add('global-redefined-once', el('div', hide(bump), el('r', define=[['global', 'g', py('gv')]]), use('bump'), '[', I('g'), ']'),
+        [['gv', 'int', 0]])
+    add('global-redefined-thrice', el('div', hide(bump), el('r', define=[['global', 'g', py('gv')]]), use('bump'), use('bump'),
+                                      use('bump'), '[', I('g'), ']'), [['gv', 'int', 0]])
+    add('global-initially-bound', el('div', hide(bump), use('bump'), '[', I('g'), ']', use('bump'), '[', I('g'), ']'),
+        [['g', 'int', 0]])
+    newg = el('p', 'n', define_macro='newg', define=[['global', 'h', py('gv + 5')], ['local', 'loc', py('gv')]])
+    add('new-global-and-local', el('div', hide(newg), P('h'), P('loc'), use('newg'), P('h'), P('loc')), [['gv', 'int', 0]])
+    reader = el('p', I("cl | 'nocl'"), el('b', I('cl'), define=[['local', 'cl', py('cl + 10')]]), I('cl'), define_macro='reader')
+    add('caller-local-visible-and-restored', el('div', hide(reader), el('x', use('reader'), '/', I('cl'),
+                                                                       define=[['local', 'cl', py('cv2')]]), P('cl')),
+        [['cv2', 'int', 0]])
+    inner = el('i', I('g'), define_macro='inner', define=[['global', 'g', py('g * 2')]])
+    outer = el('p', use('inner'), '<', I('g'), '>', define_macro='outer', define=[['global', 'g', py('g + 1')]])
+    add('nested-macros-redefine', el('div', hide(inner, outer), el('r', define=[['global', 'g', py('gv')]]), use('outer'), '[',
+                                     I('g'), ']', use('inner'), '[', I('g'), ']'), [['gv', 'int', 0]])
+    shadow = el('p', I('len'), define_macro='shadow', define=[['global', 'len', py('gv')]])
+    add('global-shadows-builtin', el('div', hide(shadow), I("len('ab')"), use('shadow'), '[', I('len'), ']'), [['gv', 'int', 0]])
+    rep = el('p', el('li', I('it'), el('k', define=[['global', 'last', py('it')]]), indent=2, repeat=['it', py('seq')]),
+             define_macro='rep')
+    add('global-from-repeat-in-macro', el('div', hide(rep), el('r', define=[['global', 'last', py('-1')]]), use('rep'), '[',
+                                          I('last'), ']', P('it')), [['seq', 'len', 0]])
+    return out
+
+
 def plan(tier, seed):
     rnd = random.Random(seed)
     quick = tier == 'quick'
@@ -75,6 +115,9 @@ def plan(tier, seed):
                 timeout=600 if quick else 3000, vacuity=1,
                 mutants=[{'name': 'copy_root_is_parent', 'cfg': {'nops': 1}},
                          {'name': 'contains_ignores_root', 'cfg': {'nops': 1}}])
+    mj = macro_scoping_jobs()
+    famM = dict(name='macro_scoping', module='checks.hC09', fn='H', jobs=mj, timeout=300, batch=2, vacuity=1,
+                program_key='label', mutants=[{'name': 'no_global_merge', 'cfg': mj[3]}])
     shapes = [[0], [0, 1], ['_', 0], ['__', 0], ['_', 0, 1], ['econtex', 0], ['rcontex', 0], [0, 'context'],
               ['econtext', 0], ['__', 0, 1], [0, '_', 1]]
     if not quick:
@@ -88,17 +131,17 @@ def plan(tier, seed):
                    'chameleon.compiler:Compiler._leave_assignment', 'chameleon.compiler:NameTransform.__call__',
                    'chameleon.utils:Scope.get', 'chameleon.utils:Scope.__getitem__', 'chameleon.utils:Scope.__contains__',
                    'chameleon.utils:Scope.__iter__', 'chameleon.utils:Scope.copy', 'chameleon.utils:Scope.set_global',
-                   'chameleon.utils:Scope.get_name'],
+                   'chameleon.utils:Scope.get_name', 'chameleon.compiler:Compiler.visit_UseInternalMacro',
+                   'chameleon.compiler:Compiler.visit_UseExternalMacro'],
         bounds=('%d scoping templates (7 nesting patterns of define local/global, repeat, condition; depth <= 3) over '
                 'the name pool %s with the name initially unbound / None / 5, define values int, repeat length 0..3 or '
                 'None; Scope: all sequences of %s operations (local set / global set / delete / copy) on a root, its copy '
                 'and the copy of the copy, keys from a 2-name pool, values unbounded ints; reserved-name predicate on %d '
-                'name shapes with up to %d symbolic code points. Outside: macros (C09 covers globals merged back after '
-                'a macro), deeper nestings, names documented as reserved but accepted (known finding).'
+                'name shapes with up to %d symbolic code points; 8 macro programs (a global re-defined by a macro once / several times / in nested macros, new globals and locals of a macro, caller locals seen inside and restored, a global shadowing a builtin, a global set inside a repeat of a macro) compared with their hand-inlined equivalents for all bindings. Outside: deeper nestings, names documented as reserved but accepted (known finding).'
                 % (len(jobs), names, '<= 2' if quick else '<= 3', len(shapes), 2 if quick else 3)),
         assumptions=['reference scope semantics in vlib/refsem.py (stack of local frames, globals, initial bindings)',
                      'probe ${show(n) | "U"} observes visibility (NameError -> U)',
                      'reserved = econtext, rcontext, names starting with two underscores (what the compiler rejects; '
                      'docs additionally list translate/decode/convert, which the test-suite requires to be accepted)'],
-        families=[famG, famS, famR],
+        families=[famG, famM, famS, famR],
     )
